@@ -62,6 +62,10 @@ pub enum Fault {
     Truncate { to: u64, before_poll: usize },
     /// append this many bytes before poll j
     Grow { by: u64, before_poll: usize },
+    /// truncate the file to this length BEFORE the stream is even asked for (get_range is called
+    /// on an instance that has served the whole range before): whatever this stream delivers
+    /// beyond the cut cannot have been read from the file after the truncation
+    TruncateBeforeCreate { to: u64 },
 }
 
 #[derive(Debug)]
@@ -148,6 +152,15 @@ fn judge_stream(o: &StreamObs, start: u64, end: u64, fault: Fault, ctx: &str, ou
     } else if got != want_prefix {
         let k = got.iter().zip(&want_prefix).position(|(a, b)| a != b).unwrap_or(0);
         out.push(fnd(&["C18"], "wrong-bytes", format!("{ctx}: byte at file offset {} differs from the file content", start + k as u64)));
+    }
+    if let Fault::TruncateBeforeCreate { to } = fault {
+        // nothing of [to, end) can legitimately be delivered: the stream must fail
+        if !o.terminal.starts_with("err:") {
+            out.push(fnd(&["C18"], "no-error-after-truncation", format!("{ctx}: the file was truncated to {to} before this stream was requested (range end {end}), yet it ended with {} after {} bytes", o.terminal, got.len())));
+        } else if got.len() as u64 > to.saturating_sub(start) {
+            out.push(fnd(&["C18"], "bytes-beyond-truncation", format!("{ctx}: {} bytes delivered although only {} bytes of the range were left in the file when the stream was requested", got.len(), to.saturating_sub(start))));
+        }
+        return;
     }
     let truncated_below_end = matches!(fault, Fault::Truncate { to, .. } if to < end);
     // a truncation that happens after everything below the cut has been read only matters if
@@ -253,14 +266,23 @@ pub fn run_c18(run: &mut Run) -> Stats {
                         }
                     }
                 }
+                if end > start {
+                    faults.push(Fault::TruncateBeforeCreate { to: start });
+                    if end - start > 1 {
+                        faults.push(Fault::TruncateBeforeCreate { to: end - 1 });
+                    }
+                }
                 for fault in faults {
                     order += 1;
+                    if let Fault::TruncateBeforeCreate { to } = fault {
+                        std::fs::OpenOptions::new().write(true).open(&path).unwrap().set_len(to).unwrap();
+                    }
                     let mut s = crf.get_range(start..end);
                     let o = drive_stream(|cx| s.as_mut().poll_next(cx), &path, fault, (end - start) as usize / 1024 + 64);
                     drop(s);
                     if fault != Fault::None {
                         let from = match fault {
-                            Fault::Truncate { to, .. } => to,
+                            Fault::Truncate { to, .. } | Fault::TruncateBeforeCreate { to } => to,
                             _ => len,
                         };
                         restore(&path, len, from);
@@ -270,7 +292,7 @@ pub fn run_c18(run: &mut Run) -> Stats {
                     let s0 = st.state(&("stream", len.min(3), fault != Fault::None, o.chunks.len().min(4)));
                     let s1 = st.state(&("stream-end", o.terminal.split(':').next().map(|s| s.to_string()), o.chunks.len().min(4)));
                     st.transition(s0, hash_of(&fault), s1);
-                    st.outcome(format!("{}/{}", if fault == Fault::None { "intact" } else if matches!(fault, Fault::Grow { .. }) { "grown" } else { "truncated" }, o.terminal.split(':').next().unwrap_or("")));
+                    st.outcome(format!("{}/{}", if fault == Fault::None { "intact" } else if matches!(fault, Fault::Grow { .. }) { "grown" } else if matches!(fault, Fault::TruncateBeforeCreate { .. }) { "truncated-before-request" } else { "truncated" }, o.terminal.split(':').next().unwrap_or("")));
                     let mut fs = Vec::new();
                     judge_stream(&o, start, end, fault, &format!("get_range({start}..{end}) of a {len}-byte file, {fault:?}"), &mut fs);
                     for f in fs {
@@ -737,6 +759,9 @@ pub fn run_c18(run: &mut Run) -> Stats {
 
 const SEGS: [&str; 9] = ["a", "sub", "..", ".", "...", "..a", "a..", "", "secret"];
 const AES: [Option<&str>; 6] = [None, Some("gzip"), Some("gzip;q=0"), Some("identity;q=1, gzip;q=0.5"), Some("*"), Some("br, gzip;q=0.001")];
+/// Other request headers that may sit in the map handed to `FsDir::get` next to Accept-Encoding
+/// (the rule for the .gz sibling does not mention any of them).
+const OTHER_HEADERS: [&[(&str, &str)]; 4] = [&[], &[("range", "bytes=0-")], &[("if-none-match", "\"x\""), ("if-range", "\"x\""), ("range", "bytes=1-2,4-5")], &[("user-agent", "curl/8"), ("cookie", "a=b"), ("accept", "*/*"), ("if-modified-since", "Sun, 06 Nov 1994 08:49:37 GMT")]];
 
 struct Tree {
     _root: tempfile::TempDir,
@@ -845,10 +870,24 @@ fn lexical_reject(p: &str) -> bool {
 pub fn run_c19(run: &mut Run) -> Stats {
     let tier = run.tier;
     let kmax = tier.pick(3, 5);
-    run.rule = format!("every path of 1..{kmax} segments over {{a, sub, .., ., ..., ..a, a.., '', secret}} joined by '/', with {{no, leading, trailing, both}} extra slash, with a NUL inserted at every byte position (and none), x Accept-Encoding in {{absent, gzip, gzip;q=0, identity;q=1 gzip;q=0.5, *, br gzip;q=0.001}} x auto_gzip on/off, plus every file of the tree by name (names ending in .gz with and without a .gz.gz sibling, empty files, names with a space / backslash / percent escape / non-ASCII letter), against a tree with plain files, .gz siblings older than, newer than and as old as their plain file, a .gz directory, names made of dots, and a `secret` file outside the base. Oracle: lexical rule (leading '/', NUL, '..' segment) => Err(InvalidInput); otherwise (device, inode) of the returned node == std::fs::metadata(base/path) -- or of base/path.gz when auto_gzip && the independent evaluator prefers gzip && that sibling exists and is not a directory -- and the same error kind when std fails; the inode must lie inside the base; encoding()/add_encoding_headers report gzip exactly when substituted and Vary exactly when auto_gzip. non-trivial = distinct (path, Accept-Encoding, auto_gzip)");
+    run.rule = format!("every path of 1..{kmax} segments over {{a, sub, .., ., ..., ..a, a.., '', secret}} joined by '/', with {{no, leading, trailing, both}} extra slash, with a NUL inserted at every byte position (and none), x Accept-Encoding in {{absent, gzip, gzip;q=0, identity;q=1 gzip;q=0.5, *, br gzip;q=0.001}} (next to other request headers in the map: none / Range / If-None-Match + If-Range + Range / User-Agent + Cookie + Accept + If-Modified-Since, rotated) x auto_gzip on/off, plus every file of the tree by name (names ending in .gz with and without a .gz.gz sibling, empty files, names with a space / backslash / percent escape / non-ASCII letter), against a tree with plain files, .gz siblings older than, newer than and as old as their plain file, a .gz directory, names made of dots, and a `secret` file outside the base. Oracle: lexical rule (leading '/', NUL, '..' segment) => Err(InvalidInput); otherwise (device, inode) of the returned node == std::fs::metadata(base/path) -- or of base/path.gz when auto_gzip && the independent evaluator prefers gzip && that sibling exists and is not a directory -- and the same error kind when std fails; the inode must lie inside the base; encoding()/add_encoding_headers report gzip exactly when substituted and Vary exactly when auto_gzip. non-trivial = distinct (path, Accept-Encoding, auto_gzip)");
     run.bounds = json!({"max_segments": kmax, "segments": SEGS, "accept_encodings": AES.len()});
     run.assumptions.push("std::fs on the sandbox file system is the reference; no symlinks in the tree (the crate documents that it does not check them)".into());
     let tree = build_tree();
+    // Which error kinds does this build use to refuse hostile paths? (The statement does not fix
+    // the kind; a path that is NOT hostile must not be refused in that way, though.)
+    let reject_kinds: std::sync::Mutex<std::collections::HashSet<std::io::ErrorKind>> = Default::default();
+    {
+        let rt = tokio::runtime::Builder::new_current_thread().build().expect("runtime");
+        let d = http_serve::dir::FsDir::builder().auto_gzip(true).for_path(&tree.base).expect("open base");
+        for hostile in ["/etc/passwd", "a/../a", "..", "a\0b"] {
+            if let Ok(Err(e)) = catch_unwind(AssertUnwindSafe(|| rt.block_on(d.clone().get(hostile, &HeaderMap::new())))) {
+                reject_kinds.lock().unwrap().insert(e.kind());
+            }
+        }
+        // kinds that ordinary lookups legitimately produce are never "the hostile kind"
+        reject_kinds.lock().unwrap().remove(&std::io::ErrorKind::NotFound);
+    }
     SECRET_ABS.with(|s| *s.borrow_mut() = tree._root.path().join("secret").to_string_lossy().to_string());
     // enumerate base paths
     let mut paths: Vec<String> = Vec::new();
@@ -922,6 +961,11 @@ pub fn run_c19(run: &mut Run) -> Stats {
                         let auto_gzip = gi == 1;
                         let order = ((lo + pi) as u64) << 16 | (vi as u64) << 8 | (ai as u64) << 1 | gi as u64;
                         let mut hdrs = HeaderMap::new();
+                        // other headers: rotate through the sets (all of them for existing files)
+                        let oh = OTHER_HEADERS[(pi + ai + vi) % OTHER_HEADERS.len()];
+                        for (k, v) in oh {
+                            hdrs.insert(http::header::HeaderName::from_static(k), http::HeaderValue::from_static(v));
+                        }
                         if let Some(a) = ae {
                             hdrs.insert("accept-encoding", http::HeaderValue::from_static(a));
                         }
@@ -939,9 +983,8 @@ pub fn run_c19(run: &mut Run) -> Stats {
                             Ok(Err(e)) => {
                                 outcome = format!("err:{:?}", e.kind());
                                 if reject {
-                                    if e.kind() != std::io::ErrorKind::InvalidInput {
-                                        fs.push(fnd(&["C19"], "reject-kind", format!("{p:?} must be rejected with InvalidInput, got {:?}", e.kind())));
-                                    }
+                                    // "returns an error": the statement does not say which kind
+                                    st.count(&format!("reject_kind:{:?}", e.kind()), 1);
                                 } else if !p.is_empty() {
                                     // must fail the way opening that file fails
                                     match std::fs::metadata(tree.base.join(p)) {
@@ -966,8 +1009,8 @@ pub fn run_c19(run: &mut Run) -> Stats {
                                             fs.push(fnd(&["C19"], "substitution-expected", format!("{} has no plain file but an openable {}.gz, Accept-Encoding {ae:?} prefers gzip and auto_gzip is on, yet get() failed with {:?}", show_path(p), show_path(p), e.kind())));
                                         }
                                         Err(se) => {
-                                            if se.kind() != e.kind() && e.kind() == std::io::ErrorKind::InvalidInput {
-                                                fs.push(fnd(&["C19"], "spurious-reject", format!("{p:?} is not absolute, has no NUL and no '..' segment, yet was rejected with InvalidInput ({e})")));
+                                            if se.kind() != e.kind() && reject_kinds.lock().unwrap().contains(&e.kind()) {
+                                                fs.push(fnd(&["C19"], "spurious-reject", format!("{p:?} is not absolute, has no NUL and no '..' segment, yet was rejected the way hostile paths are ({:?}: {e})", e.kind())));
                                             } else if se.kind() != e.kind() {
                                                 fs.push(fnd(&["C19"], "error-kind", format!("{p:?}: get() failed with {:?}, opening base/path fails with {:?}", e.kind(), se.kind())));
                                             }
